@@ -5,6 +5,58 @@ ROOT = os.path.dirname(os.path.dirname(os.path.abspath(__file__)))
 
 # id -> (technique, level text, level note, design section)
 CHECKS = {
+ "C01": ("runtime monitors on every public entry point: panic capture (debug assertions + overflow checks on), counting allocator heap bound, CPU-limited worker processes; sanitizer layers: libFuzzer+ASan, Miri, stock release profile (thorough)",
+         "112 entry points (84 public parse functions + 28 derived Parse impls) are each fed every kind of valid encoding, corruption, truncation, mutation, pattern and dense 1 MiB input, with adversarial extra parameters; each call is followed by Debug/pretty-Debug/Display formatting. A panic, an arithmetic overflow, an out-of-bounds index, a debug assertion, a heap peak above 64 KiB + 1024 B per input byte, or a worker that dies/hangs is a violation. Defragmenter op soups and streams past the 10 MiB cap run under the same monitors.",
+         "Only executions produced are judged; hang detection is a CPU-time limit per worker (never wall time); which Ok/Err is returned is other properties' business.",
+         "3/C01"),
+ "C05": ("runtime monitor: all 65536 extension types through three dispatchers, 16 tag parsers x 65536 types, reference-encoded contents and lists, predicted corruptions",
+         "Complete sweep of the type space through the generic, client-hello and server-hello dispatchers against independent IANA tables and per-type content generators; list parsers on generated lists; each tag parser on every wire type; empty-by-definition types with data, overlong outer/inner lengths. The type domain is swept completely; contents are sampled.",
+         "Recognition sets of the client/server dispatchers are read off behaviour (typed variant or verbatim Unknown); error kinds unjudged.",
+         "3/C05"),
+ "C06": ("runtime monitor: value/remainder/aliasing oracle by address over 17 self-delimiting parsers x {valid, every single length-field corruption, mutations} x 4 suffix kinds; independent declared-length calculators",
+         "For every accepted input the parse is repeated with a suffix appended: value must be equal, the remainder must be exactly the suffix slice of the same buffer, every reachable slice must alias the consumed prefix; whenever the independent calculator says the declared length is already present the outcome class must not change (this is what catches a nested length reading into the next structure). Defragmenter results are checked for provenance through the hook.",
+         "Addresses of empty slices are not judged; PskExchangeModes is an owned Vec by design.",
+         "3/C06"),
+ "C07": ("runtime monitor: executable sequential model of the defragmenter run in lock-step with the real object over generated operation histories; hooked buffer/type compared after every call",
+         "Histories: k-way splits (incl. all 2/3-way cut positions of short payloads, empty fragments), foreign-type injections, nocopy in every state, reuse after completion in lock-step with a fresh parser, op soups, and streams across the 10 MiB cap. After every operation answer, defrag_in_progress(), buffer contents (hook), state-unchanged-on-refusal and slice provenance must match the model; the split scenarios also carry the property-level oracle (all but the last Incomplete, last == unsplit parse).",
+         "The model's one-shot parser is the real parse_tls_record_with_header (decided by C03): differential between two paths of the real code plus a 40-line bookkeeping model.",
+         "3/C07"),
+ "C09": ("runtime monitor: serializer output compared byte-exact with an independent reference encoder, parsed back and re-serialized; unsupported values must yield NotYetImplemented",
+         "Every serializable kind over generated values, all 65536 ClientHello versions, session-id lengths 0..32, boundary cipher/compression/extension sizes, the three ClientKeyExchange forms, records of 1..n messages, values obtained by parsing, and the three serializable extensions; byte-exact comparison fixes every emitted length field.",
+         "Values outside wire limits are outside the quantifier and not generated; documented normal form applied to expectations.",
+         "3/C09"),
+ "C10": ("runtime monitor: DTLS framing oracle (13-byte header) over all lengths/epochs/sequence bits, reference-encoded handshake headers and bodies, fragments, datagrams",
+         "All 65536 declared lengths and epochs, every single bit of the epoch+sequence word, every prefix of generated records, (length, offset, fragment length) boundary triples, all 256 handshake types as fragments, cookies of every length, the six supported bodies, CCS/alert records and multi-record datagrams, all compared with expected crate values from an independent encoder.",
+         "Unfragmented unsupported types and fragment_length > length are unjudged.",
+         "3/C10"),
+ "C11": ("runtime monitor: complete sweep of each enumerated field's integer domain inside an otherwise valid reference encoding",
+         "44 enumerated fields (TLS and DTLS twins) are each driven through all 256 / 65536 / 256x256 values; the parse must succeed and equal the expected value, so the code point is preserved and nothing else changes. Finite domain, swept completely on every run.",
+         "Structure-selecting fields are excluded by the statement.",
+         "3/C11"),
+ "C12": ("runtime monitor: registry compared cell by cell with the txt source (independent reader) and a golden IANA snapshot; all 65536 ids x 4 lookup routes; names and ~366k perturbed names; derived sizes; name-token implications",
+         "Every run re-reads scripts/tls-ciphersuites.txt with an independent parser and the committed golden snapshot and compares all 352x10 cells, sweeps every id through the four lookup routes, looks up every name and every perturbation class, and checks derived sizes and the algorithm tokens of the IANA names. Finite domain, swept completely.",
+         "golden/ciphersuites.golden is today's table (additions allowed, alterations flagged); ChaCha20 key bits / AEGIS MAC column are recorded as unjudged (name carries no token).",
+         "3/C12"),
+ "C13": ("runtime monitor: reference encoder round trip for DH / EC / ECDH / ECPoint / both DigitallySigned forms with trailing bytes, every strict prefix, all curve types, all named groups and algorithm pairs; parse_content_and_signature under both flag values",
+         "Complete sweeps over the 65536 named groups, the 254 unsupported curve types and the 65536 algorithm pairs; generated field lengths incl. 0/1/255/256/65535; remainder checked by address; the negotiation flag is exercised on inputs where the two signature forms decode differently.",
+         "Error kinds unjudged.",
+         "3/C13"),
+ "C14": ("runtime monitor: reference-encoded SCT lists with predicted outcomes for entry/list length corruptions and truncations",
+         "Lists of 0..40 SCTs over all versions, algorithm pairs and timestamp bits; single-entry parser on two-entry inputs; an entry whose length exceeds the list contributes nothing (and nor do the following ones); a list longer than the input yields no value; truncation at every byte of short lists.",
+         "Slack bytes inside an over-long entry are unjudged.",
+         "3/C14"),
+ "C15": ("runtime monitor: accessor == field (by address) on parsed TLS/DTLS and constructed hellos; rand_time/rand_bytes on boundary words; cipher accessors for all 65536 ids",
+         "Trait accessors, rand_time/rand_bytes, cipher_suites/get_ciphers/get_cipher and the constructors are observed on thousands of parsed and constructed values and on every cipher id.",
+         "Constructed randoms shorter than 4 bytes unjudged.",
+         "3/C15"),
+ "C16": ("runtime monitor: differential between the multi-record parsers and an explicit loop over the single-record parser on concatenations with six tail kinds and mutations",
+         "The many-parsers must return exactly the loop's records and a remainder at the loop's stopping point (by address), and fail iff the loop yields nothing; tls_parser is compared with parse_tls_plaintext including error kind and error position.",
+         "Single-record parsers are the reference (judged by C02/C03/C10).",
+         "3/C16"),
+ "C18": ("observing the toolchain and the built binaries per configuration: feature-matrix builds, differential digests of 63 entry points over a generated corpus in each configuration (and with hooks on), Send/Sync and forbid(unsafe_code) build probes, 16-thread sharing at run time (Miri data-race detector in thorough)",
+         "Each configuration of the property's quantifier is built and, where buildable, run on the same corpus; digests of (outcome, Debug text, remainder) must be identical line by line. serialize-without-std must be refused with the crate's own diagnostic. The two static clauses are decided by build probes (compiler as monitor) and reported as such.",
+         "Build probes are static observations; unsafe expanded from external macros is outside the lint.",
+         "3/C18"),
  "C02": ("runtime monitor: framing oracle computed from (type, version, declared length, available bytes) over a complete type x length sweep, all versions and every prefix length",
          "Raw and encrypted record parsers are executed on all 256 types x 65536 declared lengths (complete), all 65536 versions and every prefix of boundary/random records; the plaintext parser on generated valid records, every prefix of them, all 256 types and the 'complete record whose content wants more bytes' family. Exhaustive for the (type, length) domain of the opaque parsers; sampled for payload contents.",
          "Needed while fewer than 5 bytes are available and addresses of empty slices are not judged; plaintext message contents are C03.",
